@@ -5,16 +5,19 @@
          stack_offset — as read_local_var / write_local_var do.
   C06.L  closure labels are program-unique: the handle under which a closure body is stored in the label table depends
          on something that identifies the enclosing function program-wide, not only on the module-local CardIndex.
-  C06.R  close before truncate: instr_return closes upvalues before it truncates the value stack; scope_end emits
-         CloseUpvalue for captured locals and Pop for the others.
-  C06.V  a closure captures the innermost binding of a name: resolve_upvalue scans the enclosing function's locals back to
-         front (as resolve_var does, C01.V).
+  C06.R  close before truncate: instr_return closes upvalues before it truncates the value stack, and the range of slots it
+         closes is the range it truncates: both start at the RETURNING frame's stack_offset (the popped frame's, or the
+         current frame's read before the pop - not the frame that is current after the pop, which is the caller's);
+         scope_end emits CloseUpvalue for captured locals and Pop for the others.
+  C06.V  a closure captures the innermost binding of a name: resolve_upvalue (or the helper it calls) scans the enclosing
+         function's locals so that the last declared match wins, with a front-based index (as resolve_var does, C01.V).
   C06.D  upvalue descriptors are de-duplicated on their full identity: the early return of add_upvalue compares every
          field of the descriptor it would otherwise push ((is_local, index) - a local slot and a parent upvalue with the
          same number are different variables).
   C06.N  the list of open upvalues stays linked: where register_upvalue puts a new upvalue into the list, the new
          node's `next` receives the successor the search stopped at, and its predecessor (or the list head) receives
-         the new node.
+         the new node. The walk over the list may be in register_upvalue or in a helper that is handed the list head and
+         returns the cursor (and the predecessor) it stopped at.
   C06.X  the components xor-ed into a closure label cannot cancel: Handle's `+` is xor, so two components produced by
          the same hash from run-of-the-mill indices (e.g. from_u64(module-local function index) and
          from_u64(program-wide function index)) cancel whenever the indices are equal and the label no longer depends
@@ -85,6 +88,17 @@ def leaves_of_index(F, f, du, op, depth=0, seen=None):
                 out.add("decoded")
             elif any(n == IE + "stack_offset" for n in nm):
                 out.add("offset")
+            elif _summary_leaves(F, nm, depth) is not None:
+                # a crate helper: what its return value is made of, its parameters replaced by the arguments of this call
+                for lf in _summary_leaves(F, nm, depth):
+                    if lf.startswith("param:"):
+                        n_ = int(lf.split(":")[1])
+                        if n_ - 1 < len(payload["args"]):
+                            out |= leaves_of_index(F, f, du, payload["args"][n_ - 1], depth + 1, seen)
+                        else:
+                            out.add("other")
+                    else:
+                        out.add(lf)
             elif any(n.rsplit("::", 1)[-1] in ("len",) for n in nm):
                 out.add("len")
             elif any(n.rsplit("::", 1)[-1] in ("checked_sub", "checked_add", "saturating_sub", "min", "max", "unwrap", "ok_or", "branch", "into", "try_from", "from") for n in nm):
@@ -103,6 +117,25 @@ def leaves_of_index(F, f, du, op, depth=0, seen=None):
         else:
             out.add("other")
     return out
+
+
+def _summary_leaves(F, names, depth):
+    """leaves of the value a crate function of vm:: returns (e.g. a helper that reads the current frame's stack_offset under
+    any name), None when the callee has no body in the facts or is not an integer-valued helper"""
+    if depth > 6:
+        return None
+    for n in names:
+        g = F.fn(n, required=False)
+        if g is None or not g.mir or g.is_closure or not g.short.startswith("vm::"):
+            continue
+        if g.local_ty(0) not in ("usize", "u32", "u64", "isize", "i32", "i64"):
+            continue
+        cache = F.__dict__.setdefault("_c06_ret_leaves", {})
+        if g.short not in cache:
+            cache[g.short] = None   # recursion guard
+            cache[g.short] = leaves_of_index(F, g, DefUse(g), {"k": "copy", "place": {"l": 0, "p": []}}, depth + 1)
+        return cache[g.short]
+    return None
 
 
 def param_leaves_at_callers(F, f, param, depth=0):
@@ -320,6 +353,175 @@ def rule_l(F):
 # C06.R
 # ---------------------------------------------------------------------------------------------------
 
+UNWRAPS = ("unwrap", "expect", "unwrap_unchecked", "as_ref", "as_mut", "deref", "deref_mut", "borrow", "borrow_mut", "clone", "into", "from",
+           "try_from", "try_into", "branch", "ok_or", "ok_or_else", "ok", "copied", "cloned")
+
+
+def _return_ranges_coincide(F, f, closer):
+    """C06.R, third clause: when a frame returns, the range of stack slots whose upvalues are closed and the range that is
+    truncated are the same range - both start at the RETURNING frame's stack_offset. The start of the close range is the
+    index the address handed to the upvalue-closing loop is computed from (`as_ptr().add(i)`, `&slice[i]`), the truncation
+    height is the argument of clear_until. Each is traced (MIR, copies / casts / unwrapping calls / integer helpers) to a read
+    of some call frame's `stack_offset`: the frame popped off the call stack, or the frame that is current at the point of the
+    read - which is the returning frame before the pop and the CALLER's frame after it."""
+    cfg = f.cfg
+    du = DefUse(f)
+    key = "C06/R/instr_return/close-range-is-the-truncated-range"
+
+    def on_call_stack(op):
+        l = op_local(op)
+        if l is None:
+            return False
+        kind, payload = du.trace_back(l)
+        return kind == "place" and "call_stack" in [e["name"] for e in payload["p"] if e["k"] == "field"]
+    pops = [bi for bi, t in mu.calls(f) if any(n.rsplit("::", 1)[-1] in ("pop", "pop_back") for n in callee_names(t["func"])) and t["args"] and on_call_stack(t["args"][0])]
+
+    def current_at(bi):
+        """a read of the current frame in block bi: which frame is that?"""
+        if len(pops) != 1:
+            return ("unknown", "the frame pop was not found")
+        pb = pops[0]
+        if bi != pb and cfg.dominates(pb, bi):
+            return ("caller", "read after the returning frame was popped")
+        if bi != pb and cfg.dominates(bi, pb):
+            return ("returning", "read before the frame is popped")
+        return ("unknown", "position of the read relative to the pop")
+
+    def frame_of(l, depth=0, seen=None):
+        """which call frame does the frame value / reference in local l denote?"""
+        seen = seen if seen is not None else set()
+        if depth > 12 or l in seen:
+            return ("unknown", "cyclic")
+        seen.add(l)
+        ds = _whole_defs(du, l)
+        out = set()
+        for bi, _si, kind, d in ds:
+            if kind == "call":
+                nm = callee_names(d["func"])
+                last = [n.rsplit("::", 1)[-1] for n in nm]
+                if d["args"] and on_call_stack(d["args"][0]) and any(x in ("pop", "pop_back") for x in last):
+                    out.add(("returning", "the popped frame"))
+                elif d["args"] and on_call_stack(d["args"][0]) and any(x in ("last", "last_mut", "peek", "top") for x in last):
+                    out.add(current_at(bi))
+                elif d["args"] and any(x in UNWRAPS for x in last) and op_local(d["args"][0]) is not None:
+                    out.add(frame_of(op_local(d["args"][0]), depth + 1, seen))
+                else:
+                    out.add(("unknown", "call %s" % nm[:1]))
+            else:
+                rv = d["rv"]
+                pls = rvalue_places(rv) if rv["k"] in ("use", "cast", "ref", "rawptr") else []
+                if len(pls) == 1 and all(e["k"] in ("deref", "downcast") or (e["k"] == "field" and e["name"] == "0") for e in pls[0]["p"]):
+                    out.add(frame_of(pls[0]["l"], depth + 1, seen))
+                else:
+                    out.add(("unknown", "definition of the frame value"))
+        if len(out) == 1:
+            return out.pop()
+        return ("unknown", "frame value has %d definitions" % len(ds))
+
+    def base_of(op, depth=0, seen=None):
+        """which frame's stack_offset is this integer?"""
+        seen = seen if seen is not None else set()
+        p = op_place(op)
+        if p is None:
+            return ("unknown", "constant")
+        if p["p"]:
+            if [e["name"] for e in p["p"] if e["k"] == "field"][-1:] == ["stack_offset"]:
+                return frame_of(p["l"])
+            return ("unknown", "projection")
+        l = p["l"]
+        if depth > 12 or l in seen:
+            return ("unknown", "cyclic")
+        seen.add(l)
+        ds = _whole_defs(du, l)
+        out = set()
+        for bi, _si, kind, d in ds:
+            if kind == "call":
+                nm = callee_names(d["func"])
+                last = [n.rsplit("::", 1)[-1] for n in nm]
+                if nm and nm[0] == IE + "stack_offset" or _summary_leaves(F, nm, 0) == {"offset"}:
+                    out.add(current_at(bi))
+                elif d["args"] and any(x in UNWRAPS for x in last):
+                    out.add(base_of(d["args"][0], depth + 1, seen))
+                else:
+                    out.add(("unknown", "call %s" % nm[:1]))
+            elif d["rv"]["k"] in ("use", "cast"):
+                out.add(base_of(d["rv"]["op"], depth + 1, seen))
+            else:
+                out.add(("unknown", "arithmetic on the frame base"))
+        if len(out) == 1:
+            return out.pop()
+        return ("unknown", "%d definitions" % len(ds))
+
+    def index_of_address(op, depth=0):
+        """the slot index an address into the value stack is computed from"""
+        l = op_local(op)
+        if l is None or depth > 8:
+            return None
+        d = du.sole_def(l)
+        if d is None:
+            return None
+        if d[2] == "call":
+            nm = callee_names(d[3]["func"])
+            last = [n.rsplit("::", 1)[-1] for n in nm]
+            if any(x in ("add", "offset", "wrapping_add", "get_unchecked", "get_unchecked_mut") for x in last) and len(d[3]["args"]) == 2:
+                return d[3]["args"][1]
+            if any(x in ("cast", "cast_mut", "cast_const", "as_ptr", "as_mut_ptr", "from_ref", "from_mut") + UNWRAPS for x in last) and d[3]["args"]:
+                return index_of_address(d[3]["args"][0], depth + 1)
+            return None
+        rv = d[3]["rv"]
+        if rv["k"] in ("ref", "rawptr"):
+            idx = [e for e in rv["place"]["p"] if e["k"] == "index"]
+            if len(idx) == 1:
+                return {"k": "copy", "place": {"l": idx[0]["local"], "p": []}}
+            if not idx and all(e["k"] == "deref" for e in rv["place"]["p"]):
+                return index_of_address({"k": "copy", "place": {"l": rv["place"]["l"], "p": []}}, depth + 1)
+            return None
+        if rv["k"] in ("use", "cast"):
+            return index_of_address(rv["op"], depth + 1)
+        return None
+
+    res = []
+    close_calls = [(bi, t) for bi, t in mu.calls(f) if closer in callee_names(t["func"])]
+    trunc_calls = [(bi, t) for bi, t in mu.calls(f) if "collections::value_stack::ValueStack::clear_until" in callee_names(t["func"])]
+    if not close_calls or not trunc_calls:
+        return [undecided("C06.R", key, f.loc(), "no call of the upvalue-closing loop / clear_until in instr_return")]
+    found = []
+    for what, calls_ in (("close", close_calls), ("truncate", trunc_calls)):
+        for bi, t in calls_:
+            if what == "close":
+                ptr_args = [a for a in t["args"] if op_local(a) is not None and f.local_ty(op_local(a)).lstrip().startswith(("*const", "*mut"))]
+                idx = index_of_address(ptr_args[0]) if len(ptr_args) == 1 else None
+                if idx is None:
+                    found.append((what, t, ("unknown", "the address passed to the closing loop is not `stack base + index`")))
+                    continue
+            else:
+                idx = t["args"][1]
+            found.append((what, t, base_of(idx)))
+    unknown = [(w, t, b) for w, t, b in found if b[0] == "unknown"]
+    wrong = [(w, t, b) for w, t, b in found if b[0] == "caller"]
+    if wrong:
+        w, t, b = wrong[0]
+        if w == "close":
+            res.append(bad("C06.R", key, f.loc(t.get("ln")),
+                           "instr_return closes the open upvalues from the stack_offset of the frame that is current AFTER the returning frame "
+                           "was popped - the caller's frame base - while the value stack is truncated at the returning frame's: every Return "
+                           "also closes the upvalues of the caller's captured locals, so after any call returns the caller and its closures no "
+                           "longer share the variable (`let x; let f = || x; g(); x = 1; f()` sees the old x)", frames=[(w_, b_[0]) for w_, _t, b_ in found]))
+        else:
+            res.append(bad("C06.R", key, f.loc(t.get("ln")),
+                           "instr_return truncates the value stack at the stack_offset of the frame that is current AFTER the returning frame was "
+                           "popped (the caller's frame base): the truncated range is not the range whose upvalues were closed, the caller's "
+                           "locals are dropped with open upvalues still pointing at them", frames=[(w_, b_[0]) for w_, _t, b_ in found]))
+    elif unknown:
+        w, t, b = unknown[0]
+        res.append(undecided("C06.R", key, f.loc(t.get("ln")), "start of the %s range not traced to a call frame's stack_offset (%s)" % (w, b[1])))
+    else:
+        res.append(ok("C06.R", key, f.loc(close_calls[0][1].get("ln")),
+                      "upvalues are closed from, and the value stack is truncated at, the returning frame's stack_offset"))
+    return res
+
+
+
 def rule_r(F):
     res = []
     f = F.fn(IE + "instr_return")
@@ -335,6 +537,7 @@ def rule_r(F):
         res.append(bad("C06.R", "C06/R/instr_return/close-before-truncate", f.loc(),
                        "instr_return truncates the value stack without first closing the upvalues that point into the frame: closures "
                        "that outlive the call read slots that are reused by later frames"))
+    res += _return_ranges_coincide(F, f, closer)
     # CloseUpvalue releases the slot it closed (scope_end emits exactly one instruction per local leaving the scope)
     cu = F.fn(IE + "close_upvalues")
     ccfg = cu.cfg
@@ -354,27 +557,77 @@ def rule_r(F):
                        "CloseUpvalue closes the upvalues of the top slot but leaves the slot on the stack: when two captured locals leave a "
                        "scope together the second CloseUpvalue still sees the first slot on top, the second local's upvalue stays open and "
                        "its closure later reads a reused stack slot"))
-    # scope_end: if var.captured { CloseUpvalue } else { Pop }
+    # scope_end: if var.captured { CloseUpvalue } else { Pop } - the two instructions are emitted in the branches, or the
+    # branches select the instruction that one emission after them pushes (`let i = if captured {A} else {B}; push(i)`)
     g = F.fn("compiler::Compiler::scope_end")
     from rules.c10 import instr_ctor
+
+    def is_emit(y):
+        nm = hir_callee(y)
+        if y.get("k") in ("call", "mcall") and "compiler::Compiler::push_instruction" in nm:
+            return True
+        return y.get("k") == "mcall" and any(n.endswith("::push") for n in nm) and bool(y["args"]) and isinstance(instr_ctor(y["args"][0]), (str, tuple))
+
+    def emitted(e):
+        out = []
+        for y in hir_walk(e):
+            if y.get("k") in ("call", "mcall") and is_emit(y):
+                v = instr_ctor(y["args"][0])
+                if v:
+                    out.append(v)
+        return out
+
+    def value_ctor(e):
+        e = hir_strip(e)
+        while e is not None and e.get("k") == "block" and e["block"].get("expr") is not None:
+            e = hir_strip(e["block"]["expr"])
+        v = instr_ctor(e) if e is not None else None
+        return v if isinstance(v, str) else None
+
+    def captured_test(c):
+        """(is a test of Local.captured, negated)"""
+        c = hu.strip_casts(c)
+        neg = False
+        while c is not None and c.get("k") == "un" and c["op"] == "Not":
+            neg = not neg
+            c = hu.strip_casts(c["e"])
+        return (c is not None and c.get("k") == "field" and c["name"] == "captured"), neg
+
+    def selects_emitted_instruction(node):
+        """the value of `node` is what a push_instruction pushes: directly, or through a local initialised once with it"""
+        inits = hu.let_inits(g)
+        carriers = set(lid for lid, es in inits.items() if len(es) == 1 and hir_strip(es[0]) is node)
+        for y in hir_walk(g.hir["body"]):
+            if y.get("k") in ("call", "mcall") and is_emit(y):
+                a0 = hir_strip(y["args"][0])
+                if a0 is node or hir_local_id(a0) in carriers:
+                    return True
+        return False
+
     found = None
     for x in hir_walk(g.hir["body"]):
+        branches = None
         if x.get("k") == "if":
-            c = hu.strip_casts(x["cond"])
-            if c.get("k") == "field" and c["name"] == "captured":
-                def emitted(e):
-                    out = []
-                    for y in hir_walk(e):
-                        if y.get("k") in ("call", "mcall"):
-                            nm = hir_callee(y)
-                            if "compiler::Compiler::push_instruction" in nm:
-                                out.append(instr_ctor(y["args"][0]))
-                            elif any(n.endswith("::push") for n in nm) and y.get("k") == "mcall":
-                                v = instr_ctor(y["args"][0])
-                                if v:
-                                    out.append(v)
-                    return out
-                found = (emitted(x["then"]), emitted(x.get("else")) if x.get("else") else [])
+            is_cap, neg = captured_test(x["cond"])
+            if is_cap:
+                branches = (x["then"], x.get("else")) if not neg else (x.get("else"), x["then"])
+        elif x.get("k") == "match" and captured_test(x["scrut"])[0] and not captured_test(x["scrut"])[1]:
+            yes = no = None
+            for a in x["arms"]:
+                lit = a["pat"].get("lit", {}).get("v") if a["pat"].get("k") == "expr" else None
+                if lit is True:
+                    yes = a["body"]
+                elif lit is False or a["pat"].get("k") in ("wild", "bind"):
+                    no = a["body"] if no is None else no
+            if yes is not None:
+                branches = (yes, no)
+        if branches is None:
+            continue
+        t, e = branches
+        em = (emitted(t) if t is not None else [], emitted(e) if e is not None else [])
+        if not em[0] and not em[1] and t is not None and e is not None and value_ctor(t) and value_ctor(e) and selects_emitted_instruction(x):
+            em = ([value_ctor(t)], [value_ctor(e)])
+        found = em
     if found is None:
         res.append(undecided("C06.R", "C06/R/scope_end/captured-locals-are-closed", g.loc(), "branch on Local.captured not found"))
     elif found[0] == ["CloseUpvalue"] and found[1] == ["Pop"]:
@@ -616,6 +869,103 @@ def rule_x(F):
 # C06.N
 # ---------------------------------------------------------------------------------------------------
 
+def _whole_defs(du, l):
+    return [d for d in du.defs.get(l, []) if not d[3].get("place", d[3].get("dest"))["p"]]
+
+
+def _reads_field_chain(du, l, names, depth=0):
+    """is local l (through single-definition copies / casts / borrows) a value read from a place with one of the fields?"""
+    if depth > 5:
+        return False
+    for d in _whole_defs(du, l):
+        if _def_reads_field(du, d, names, depth):
+            return True
+    return False
+
+
+def _def_reads_field(du, d, names, depth=0):
+    if d[2] != "assign" or depth > 5:
+        return False
+    for pl in rvalue_places(d[3]["rv"]):
+        if any(e["k"] == "field" and e["name"] in names for e in pl["p"]):
+            return True
+        if not pl["p"]:
+            ds = _whole_defs(du, pl["l"])
+            if len(ds) == 1 and _def_reads_field(du, ds[0], names, depth + 1):
+                return True
+    return False
+
+
+def _def_copies(du, d, targets, depth=0):
+    """the definition is a plain copy (through single-definition temporaries) of one of the target locals"""
+    if d[2] != "assign" or d[3]["rv"]["k"] != "use" or depth > 5:
+        return False
+    q = op_place(d[3]["rv"]["op"])
+    if q is None or q["p"]:
+        return False
+    if q["l"] in targets:
+        return True
+    ds = _whole_defs(du, q["l"])
+    return len(ds) == 1 and _def_copies(du, ds[0], targets, depth + 1)
+
+
+def _list_walk_roles(g, head_params=()):
+    """(cursor locals, predecessor locals) of a walk over the open-upvalue list in the MIR body g: the cursor is assigned
+    the list head (a read of `open_upvalues`, or one of the parameters `head_params` that the caller fills with it) and is
+    advanced through a node's `next`; a predecessor receives the cursor before it advances."""
+    du = DefUse(g)
+    n = len(g.mir["locals"])
+    heads = set(head_params)
+
+    def reads_head(d):
+        return _def_reads_field(du, d, ("open_upvalues",)) or (bool(heads) and _def_copies(du, d, heads))
+    cursors = [l for l in range(n) if len(_whole_defs(du, l)) >= 2 and any(_def_reads_field(du, d, ("next",)) for d in _whole_defs(du, l))
+               and any(reads_head(d) for d in _whole_defs(du, l))]
+    if not cursors:
+        return [], []
+    cursor = cursors[0]
+    preds = [l for l in range(n) if l != cursor and len(_whole_defs(du, l)) >= 2 and any(_def_copies(du, d, {cursor}) for d in _whole_defs(du, l))]
+    return [cursor], preds
+
+
+def _returned_roles(g, cursors, preds):
+    """what a helper that walks the list hands back: {None: role} when it returns one value, {'0': role, '1': role} for a
+    tuple; role is 'cursor' / 'pred' for plain copies of the walk's cursor / predecessor at the exit of the walk"""
+    du = DefUse(g)
+    out = {}
+    ds = _whole_defs(du, 0)
+    if len(ds) != 1 or ds[0][2] != "assign":
+        return out
+    rv = ds[0][3]["rv"]
+
+    def role_of(op):
+        l = op_local(op)
+        if l is None:
+            return None
+        seen = set()
+        while l is not None and l not in seen:
+            seen.add(l)
+            if l in cursors:
+                return "cursor"
+            if l in preds:
+                return "pred"
+            d = _whole_defs(du, l)
+            if len(d) != 1 or d[0][2] != "assign" or d[0][3]["rv"]["k"] != "use":
+                return None
+            l = op_local(d[0][3]["rv"]["op"])
+        return None
+    if rv["k"] == "use":
+        r = role_of(rv["op"])
+        if r:
+            out[None] = r
+    elif rv["k"] == "agg" and rv["agg"]["k"] == "tuple":
+        for i, o in enumerate(rv["ops"]):
+            r = role_of(o)
+            if r:
+                out[str(i)] = r
+    return out
+
+
 def rule_n(F):
     """MIR: in register_upvalue, the block that writes `<prev>.next = new` or `open_upvalues = new` must be preceded on
     every path from the creation of the new node (init_upvalue) by a write of `<new>.next`."""
@@ -695,40 +1045,44 @@ def rule_n(F):
         return from_new({"k": "copy", "place": {"l": place["l"], "p": []}})
 
     # the search cursor: the local that starts at open_upvalues and is advanced through `.next` in the search loop; its
-    # predecessor: the local that receives the cursor before it advances
+    # predecessor: the local that receives the cursor before it advances. The walk is either in this body or in a helper that
+    # is handed the list head and returns where it stopped (the cursor, or a tuple with cursor and predecessor)
     def whole_defs(l):
         return [d for d in du.defs.get(l, []) if not d[3].get("place", d[3].get("dest"))["p"]]
 
-    def reads_field(d, names, depth=0):
-        if d[2] != "assign" or depth > 4:
-            return False
-        for pl in rvalue_places(d[3]["rv"]):
-            if any(e["k"] == "field" and e["name"] in names for e in pl["p"]):
-                return True
-            if not pl["p"]:
-                ds = whole_defs(pl["l"])
-                if len(ds) == 1 and reads_field(ds[0], names, depth + 1):
-                    return True
-        return False
-
-    cursors = [l for l in range(len(f.mir["locals"])) if len(whole_defs(l)) >= 2 and any(reads_field(d, ("next",)) for d in whole_defs(l))
-               and any(reads_field(d, ("open_upvalues",)) for d in whole_defs(l))]
-    if not cursors:
+    cursor_set, preds = _list_walk_roles(f)
+    cursor_set, preds = set(cursor_set), list(preds)
+    for bi, t in mu.calls(f):
+        g = next((h for h in (F.fn(n, required=False) for n in callee_names(t["func"])) if h is not None and h.mir and not h.is_closure and h is not f), None)
+        if g is None:
+            continue
+        head_params = [i + 1 for i, a in enumerate(t["args"]) if op_local(a) is not None and _reads_field_chain(du, op_local(a), ("open_upvalues",))]
+        if not head_params:
+            continue
+        gc, gp = _list_walk_roles(g, head_params)
+        if not gc:
+            continue
+        roles = _returned_roles(g, gc, gp)     # {None | tuple field name: 'cursor' | 'pred'}
+        dest = t["dest"]
+        if dest["p"]:
+            continue
+        for l in range(len(f.mir["locals"])):
+            for d in whole_defs(l):
+                if d[2] != "assign" or d[3]["rv"]["k"] != "use":
+                    continue
+                q = op_place(d[3]["rv"]["op"])
+                if q is None or q["l"] != dest["l"]:
+                    continue
+                proj = [e["name"] for e in q["p"] if e["k"] == "field"]
+                role = roles.get(proj[0] if proj else None) if len(proj) == len(q["p"]) and len(proj) <= 1 else None
+                if role == "cursor":
+                    cursor_set.add(l)
+                elif role == "pred":
+                    preds.append(l)
+        if roles.get(None) == "cursor":
+            cursor_set.add(dest["l"])
+    if not cursor_set:
         raise AnchorMissing("search cursor over the open-upvalue list in register_upvalue")
-    cursor = cursors[0]
-    def is_copy_of(d, target, depth=0):
-        if d[2] != "assign" or d[3]["rv"]["k"] != "use" or depth > 4:
-            return False
-        q = op_place(d[3]["rv"]["op"])
-        if q is None or q["p"]:
-            return False
-        if q["l"] == target:
-            return True
-        ds = whole_defs(q["l"])
-        return len(ds) == 1 and is_copy_of(ds[0], target, depth + 1)
-
-    preds = [l for l in range(len(f.mir["locals"])) if l != cursor and len(whole_defs(l)) >= 2
-             and any(is_copy_of(d, cursor) for d in whole_defs(l))]
 
     def derives_from_local(op, target, through_calls=True):
         p = op_place(op)
@@ -761,7 +1115,7 @@ def rule_n(F):
         rv = st["rv"]
         ops = rvalue_operands(rv)
         if base_from_new(st["place"]):
-            if any(derives_from_local(o, cursor, through_calls=False) for o in ops):
+            if any(derives_from_local(o, cursor, through_calls=False) for o in ops for cursor in cursor_set):
                 self_link.append(bi)
             else:
                 self_link_other.append(bi)
@@ -893,7 +1247,7 @@ RULES = [
     Rule("C06.I", shared(_c01_rule_l, "C01.L", "C06.I"), 7, "loop variables visible to closures are per-iteration locals (shared with C01.L)"),
     Rule("C06.O", rule_o, 3, "value-stack slots addressed from bytecode operands are frame-relative"),
     Rule("C06.L", rule_l, 1, "closure labels are program-unique"),
-    Rule("C06.R", rule_r, 3, "upvalues are closed before their slots disappear"),
+    Rule("C06.R", rule_r, 4, "upvalues are closed before their slots disappear; on return the closed range is the truncated range"),
     Rule("C06.V", rule_v, 1, "a closure captures the innermost binding of a name"),
     Rule("C06.D", rule_d, 1, "upvalue descriptors are de-duplicated on their full identity"),
     Rule("C06.X", rule_x, 1, "xor-ed label components cannot cancel"),
